@@ -45,6 +45,7 @@ FUNCS = [
     ("distributed_shampoo/utils/shampoo_preconditioner_list.py", "ShampooPreconditionerList.precondition"),
     ("distributed_shampoo/utils/shampoo_preconditioner_list.py", "EigenvalueCorrectedShampooPreconditionerList.precondition"),
     ("distributed_shampoo/utils/shampoo_distributor.py", "Distributor.update_params"),
+    ("distributed_shampoo/utils/shampoo_ddp_distributor.py", "DDPDistributor.update_params"),
 ]
 TRUSTED = [
     "[D] Dynamo / AOTAutograd (external): the compiled callable is the traced Python function with is_compiling() == True outside torch.compiler.disable'd callees; guards / recompilation correct; only numerics-preserving backends (eager, aot_eager) are in the property's premise — inductor is out of scope",
@@ -84,6 +85,10 @@ def cases(tier):
     if tier == "quick":
         pl = [c for c in pl if c.split("/")[2] in ("o0", "o1", "o2")]
     cs += ["mode/" + c for c in pl]
+    # update_params of the DDP distributor is traced as well (only the all-gather itself is compiler-disabled): its contract, with the tracing
+    # predicate symbolic, for every presence pattern and both communicate_params modes
+    from checks import dist as D
+    cs += ["mode/" + c for c in D.update_params_cases("ddp") if "/f32/" in c]
     return cs
 
 
@@ -141,7 +146,11 @@ def run_case(case, tier, seed):
     if case == "wiring/compile":
         return _wiring_case(case)
     sub = case[len("mode/"):]
-    if sub.startswith("group_step/"):
+    if sub.startswith("update/"):
+        from checks import dist as D
+        with compile_mode("sym"):
+            res = D.run_update_params(sub)
+    elif sub.startswith("group_step/"):
         from checks import c01
         with compile_mode("sym"):
             res = c01._group_step_case(sub, tier)
@@ -184,7 +193,7 @@ def _configs(tier, seed):
     return base
 
 
-def native_compiled(cfg, backend, dynamic, seed, steps=6):
+def native_compiled(cfg, backend, dynamic, seed, steps=6, ddp=None):
     import torch
     from checks import e2e
     from distributed_shampoo import shampoo_types as st
@@ -200,7 +209,14 @@ def native_compiled(cfg, backend, dynamic, seed, steps=6):
     for name, pt2 in (("eager", None), ("compiled", st.ShampooPT2CompileConfig(pytorch_compile_backend=backend, enable_shampoo_pt2_dynamic_shape=dynamic))):
         params = [torch.nn.Parameter(x.clone()) for x in init]
         torch._dynamo.reset()
-        opt = e2e.build(cfg, params, pt2=pt2, soap=soap)
+        dist_cfg = None
+        if ddp is not None:
+            # the real DDP distributor on a single-process gloo group of world size 1 (its update_params is traced, only the all-gather is not)
+            import torch.distributed as dist
+            if not dist.is_initialized():
+                dist.init_process_group("gloo", store=dist.HashStore(), rank=0, world_size=1)
+            dist_cfg = st.DDPShampooConfig(communicate_params=bool(ddp.get("communicate_params")))
+        opt = e2e.build(cfg, params, pt2=pt2, soap=soap, dist_cfg=dist_cfg)
         traj = []
         for t in range(steps):
             for p, g, pr in zip(params, grads[t], hist[t]):
@@ -239,6 +255,16 @@ def bounded(tier, seed):
             if bad and len(viol) < 5:
                 viol.append(dict(ob=f"bounded/compiled=eager[cfg{ci},{backend},dynamic={dyn}]", func="DistributedShampoo._per_group_step", input=dict(config={k: str(v) for k, v in cfg.items()}, backend=backend, dynamic=dyn),
                                  text=bad, detail=bad, replay=dict(kind="compiled", ci=ci, backend=backend, dyn=dyn, seed=seed, tier=tier)))
+    for cp in (False, True):
+        try:
+            bad = native_compiled(cfgs[1], "aot_eager" if cp else "eager", False, seed * 100 + 50 + int(cp), ddp=dict(communicate_params=cp))
+        except BaseException as e:  # noqa
+            bad = f"raised {type(e).__name__}: {str(e)[:300]}"
+        evals += 1
+        distinct.add(("ddp", cp))
+        if bad and len(viol) < 5:
+            viol.append(dict(ob=f"bounded/compiled=eager[ddp,communicate_params={cp}]", func="DDPDistributor.update_params", input=dict(distributor="DDP (world size 1)", communicate_params=cp),
+                             text=bad, detail=bad, replay=dict(kind="compiled-ddp", cp=cp, seed=seed)))
     # the eager optimizer itself satisfies the C01 contract on the same configurations (reference interpreter), so compiled == eager
     # implies compiled satisfies the contract
     from checks import e2e
@@ -280,6 +306,16 @@ def replay_file(doc):
                 bads.append(f"cfg{ci} {dict((k, str(v)) for k, v in cfg.items())}: {bad}")
         _EAGER["grid"] = (bool(bads), "; ".join(bads[:2]) or "compiled (aot_eager) == eager bitwise on the six branch-cover configurations")
         return _EAGER["grid"]
+    if rp.get("kind") in ("compiled-ddp", "ddp_native"):
+        bads = []
+        for cp in (False, True):
+            try:
+                bad = native_compiled(_configs("quick", rp.get("seed", 1))[1], "aot_eager" if cp else "eager", False, rp.get("seed", 1) * 100 + 50 + int(cp), ddp=dict(communicate_params=cp))
+            except BaseException as e:  # noqa
+                bad = f"raised {type(e).__name__}: {str(e)[:300]}"
+            if bad:
+                bads.append(f"communicate_params={cp}: {bad}")
+        return bool(bads), "; ".join(bads) or "compiled == eager bitwise through the DDP distributor (world size 1)"
     if rp.get("kind") == "compiled":
         cfg = _configs(rp.get("tier", "quick"), rp["seed"])[rp["ci"]]
         bad = native_compiled(cfg, rp["backend"], rp["dyn"], rp["seed"] * 100 + rp["ci"])
